@@ -66,7 +66,7 @@ class OrbitStep(NxHarness):
             g = SymGraph(spec["adj"].copy())
         else:
             g = nx.from_numpy_array(np.asarray(spec["adj"]))
-        g1 = lc.local_comp_graph(g, v)
+        g1 = lc.local_comp_graph(g, np.array([v]) if getattr(self, "as_array", 0) else v)  # the orbit explorers pass np.argwhere rows
         a1 = cells(g1.adj_matrix) if (S.symbolic and not isinstance(g1, nx.Graph)) else cells(nx.to_numpy_array(g1, nodelist=range(n)).astype(int))
         want = lc_oracle(cells(spec["adj"]), v, n)
         S.prove("step-is-a-local-complementation", b_and(*[O.eq_bits(a1[i][j], want[i][j]) for i in range(n) for j in range(n)]))
@@ -83,4 +83,6 @@ def plan(tier):
     for n in ([3, 4, 5, 11] if q else [3, 4, 5, 6, 11, 12]):
         for v in (range(n) if n <= 6 else (0, 1, n // 2, n - 1)):
             jobs.append((OrbitStep(n=n, v=v), {}))
+            if n <= 5:
+                jobs.append((OrbitStep(n=n, v=v, as_array=1), {}))
     return jobs
